@@ -422,6 +422,9 @@ def case_list(tier):
           if n == 2 and (metric != 'mse' or rname == 'SELF'):
             continue
           cs.append((skel, rname, metric, n))
+  # int64 biases far outside the int32 range (16-bit activations)
+  cs.append(('single_FC_TINY_WEIGHTS', 'shipped:default_a16w8_recipe.json',
+             'mse', 1))
   return cs
 
 
